@@ -58,7 +58,10 @@ def generate(u, repo=None, canary=None):
     try:
         text, inserted = apply_overlay(body, ops, guessed)
     except (AnchorError, LexError) as e:
-        raise Undecided(str(e))
+        u_ = Undecided(str(e))
+        u_.lints = list(ctx.lints)      # syntactic obligations do not depend on the overlay
+        u_.unit = getattr(u, 'NAME', '?')
+        raise u_
     if not verify_insert_only(body, text, inserted, ops):
         raise Undecided('internal: generated text minus insertions differs from the extracted text')
     n = len(head)
